@@ -236,6 +236,8 @@ class DGen:
             datas.append((A.Data(', '.join(t for t, _ in its)), its))
         labels = ['dl%dz' % k if self.chance(0.6) else 100 + 10 * k
                   for k in range(self.i(0, 5))]
+        if labels and not isinstance(labels[0], str) and self.chance(0.5):
+            labels[0] = 0          # line number 0 is a line number too
         # slots: sequence of module-level units in source order
         units = [('data', d) for d in datas]
         for lb in labels:
